@@ -16,6 +16,13 @@ run(ctx):
          effect-free statements after line ends (longer look-ahead) must play identically
   5. coverage, violations (stable keys).  Known compiler defects are exercised by PROBES (fixed
      minimal programs, RefSem vs implementation), one key each; the random stream avoids them.
+
+Choice numbering (POS_WEIGHTS): the host names a choice by its index in the list it was SHOWN (visible choices
+only), the engine keeps invisible fallback choices in the same generated list.  The streams of (a), (b), (c)
+therefore write fallbacks at any position of their group (not only last) and let thread knots contribute a
+fallback ahead of the choices of the weave that started them; both oracles (Coq engine model, RefSem) choose
+by visible index, so an index that is not translated shows as a different line / status / global / visit
+count on that path.  corpus/C01/fallback_*.json are minimal programs of the class (always compared).
 """
 import copy, json, os, random, re, time
 import vlib, gen_tables, engine, gen_ink
@@ -316,7 +323,8 @@ def collect_probes(exe):
 def part_a(ctx, exe, n, stats):
     cases, asts = [], {}
     for i in range(n):
-        src, ast = gen_ink.gen_program(ctx.rng)
+        src, ast = gen_ink.gen_program(ctx.rng, **POS_WEIGHTS)
+        stats["hidden_ahead"] = stats.get("hidden_ahead", 0) + (1 if hidden_ahead(ast) else 0)
         c = {"id": "a%d" % i, "ink": src, "seed": 7, "fuel": 20000}
         c.update(gen_ink.gen_script(ctx.rng, ast, "explore", depth=ctx.rng.randint(3, 5), max_paths=24))
         cases.append(c)
@@ -436,7 +444,7 @@ def run(ctx):
     depth_b, budget_b = (3, 30) if quick else (4, 80)
     progs_b = corpus_asts()
     for i in range(nb):
-        src, ast = gen_ink.gen_program(ctx.rng, fragment="refsem", **REF_WEIGHTS)
+        src, ast = gen_ink.gen_program(ctx.rng, fragment="refsem", **dict(REF_WEIGHTS, **POS_WEIGHTS))
         progs_b.append(("b%d" % i, ast))
     from concurrent.futures import ThreadPoolExecutor
     with ThreadPoolExecutor(max_workers=2) as ex:
@@ -482,7 +490,7 @@ def run(ctx):
     nc = int(os.environ.get("C01_NC", 120 if quick else 1500))
     progs_c = [(i, a) for i, a in progs_b[:nc // 2]]
     for i in range(nc - len(progs_c)):
-        progs_c.append(("c%d" % i, gen_ink.gen_program(ctx.rng)[1]))
+        progs_c.append(("c%d" % i, gen_ink.gen_program(ctx.rng, **POS_WEIGHTS)[1]))
     fails_c, evals_c = part_c(ctx, exe_play, progs_c, 3 if quick else 4, 30 if quick else 60)
 
     tm["c_once"] = round(time.time() - t1, 1)
@@ -500,7 +508,9 @@ def run(ctx):
              "x explore depth 3-5: Coq engine model vs implementation transcripts; (b) RefSem-fragment programs x all "
              "paths to depth %d: lines/tags/choices/status/globals/visit counts vs Spec/RefSem.v; (c) every path plain vs "
              "continue_async paused every 1,2,3 steps, and vs a variant with effect-free statements after line ends; "
-             "probes: one fixed minimal program per known compiler defect" % depth_b,
+             "probes: one fixed minimal program per known compiler defect; in all streams fallback choices stand at any "
+             "position of their group and thread knots contribute fallbacks ahead of the local choices (the host "
+             "chooses by visible index)" % depth_b,
         samples=[dict(program=sample_src[:1500])],
         traces_validated_against_impl=stats["engine_paths"] + npaths_b,
         engine_correspondence=stats["engine_status"], engine_paths=stats["engine_paths"],
@@ -508,6 +518,9 @@ def run(ctx):
         refsem_status=by_b, refsem_paths_agreeing=npaths_b, refsem_programs_without_workarounds=wide, refsem_classes=sorted(seen_cls),
         exactly_once_paths=evals_c, exactly_once_failures=len(fails_c),
         probes=len(PROBES), probes_disagreeing=probes_found,
+        programs_with_hidden_choice_ahead_of_visible=dict(
+            a=stats.get("hidden_ahead", 0), b=sum(1 for _, a in progs_b if hidden_ahead(a)),
+            c=sum(1 for _, a in progs_c if hidden_ahead(a))),
         refsem_calibration=dict(corpus_stories=ncal, failing=[b["story"] for b in calib_bad]),
         feature_histogram=feats, programs=dict(a=len(res_a), b=len(progs_b), c=len(progs_c)),
         wall_parts_s=tm))
@@ -539,6 +552,59 @@ def run(ctx):
 # weights of the RefSem stream: constructs with a known compiler defect are switched off here and
 # exercised by PROBES instead
 REF_WEIGHTS = dict(choice_tags=0.0)
+# choice numbering: fallbacks ahead of visible choices (own group / contributed by a thread), all random streams
+POS_WEIGHTS = dict(fallback_pos=0.5, thread_fallback=0.4)
+
+
+def hidden_ahead(ast):
+    """static count: choice groups whose fallback is written before a visible choice, thread knots with a fallback"""
+    n = [0]
+
+    def blk(b):
+        for s in b:
+            if s[0] == "choices":
+                fb = [j for j, c in enumerate(s[1]) if c["fallback"]]
+                if fb and any(not c["fallback"] for c in s[1][fb[0] + 1:]):
+                    n[0] += 1
+                for c in s[1]:
+                    blk(c["body"])
+            elif s[0] == "if":
+                for _, b2 in s[1]:
+                    blk(b2)
+                blk(s[2] or [])
+            elif s[0] == "switch":
+                for _, b2 in s[2]:
+                    blk(b2)
+                blk(s[3] or [])
+            elif s[0] == "seqblock":
+                for b2 in s[3]:
+                    blk(b2)
+
+    threads = set()
+
+    def thr(b):
+        for s in b:
+            if s[0] == "thread":
+                threads.add(s[1])
+            elif s[0] == "choices":
+                for c in s[1]:
+                    thr(c["body"])
+            elif s[0] == "if":
+                for _, b2 in s[1]:
+                    thr(b2)
+                thr(s[2] or [])
+            elif s[0] == "switch":
+                for _, b2 in s[2]:
+                    thr(b2)
+                thr(s[3] or [])
+    for k in ast["knots"]:
+        blk(k["body"]); thr(k["body"])
+        for st in k["stitches"]:
+            blk(st["body"]); thr(st["body"])
+    for k in ast["knots"]:
+        if k["name"] in threads and any(s[0] == "choices" and any(c["fallback"] for c in s[1]) for s in k["body"]):
+            n[0] += 1
+    return n[0]
 
 
 def replay(ctx, payload):
